@@ -631,7 +631,15 @@ func c19Cookie(c *Ctx) {
 		}
 	}
 	// who touches Server.cookieKey
-	writers := map[string]bool{"transport.(*Server).init": true, "transport.(*Server).Serve$2": true}
+	writers := map[string]bool{"transport.(*Server).init": true}
+	if serve := P.Func("transport", "(*Server).Serve"); serve != nil {
+		for _, g := range goBodiesOf(serve) {
+			// the rotation goroutine: a goroutine body of Serve other than the receive loop
+			if len(callSitesIn(g, false, hopID("transport", "Server", "readPacket"))) == 0 {
+				writers[FuncName(g)] = true
+			}
+		}
+	}
 	readers := map[string]bool{"transport.(*Server).readPacket": true, "transport.(*Server).ReplayPQDuplexFromCookie": true, "transport.(*Server).ReplayDuplexFromCookie": true}
 	n := 0
 	for _, f := range P.ModuleFuncs("transport") {
